@@ -20,7 +20,7 @@ from . import _rt
 
 ID = "C05"
 LEVEL = "exploration"
-ENGINE = "hypothesis"
+ENGINE = "hypothesis (+ atheris/libFuzzer coverage guidance in 4 thorough shards)"
 TECHNIQUE = "differential property-based testing across input channels and parser modes (one logical setting rendered per channel, results compared type for type)"
 LEVEL_TEXT = ("Each generated (parser, settings) pair is pushed through up to 11 channels and 4 parser modes; all must agree on the typed "
               "result or all must reject. The renderer passes top-level str raw on argv/env and everything else as JSON text; look-alike strings "
@@ -282,14 +282,20 @@ def body(ctx):
 def plan(tier):
     if tier == "quick":
         return [{"n": 250, "depth": 2} for _ in range(16)]
-    return [{"n": 3000, "depth": 2 if i % 2 else 3} for i in range(16)]
+    return [{"n": 3000, "depth": 2 if i % 2 else 3} for i in range(12)] + [{"kind": "atheris", "n": 5000, "depth": 2} for _ in range(4)]
 
 
 def run_shard(spec, ctx):
     from . import _kinds
 
     main = case_strategy(spec["depth"])
-    run_given(ctx, st.integers(0, 4).flatmap(lambda i: _kinds.case_strategy() if i == 0 else main), body(ctx), spec["n"])
+    strategy = st.integers(0, 4).flatmap(lambda i: _kinds.case_strategy() if i == 0 else main)
+    if spec.get("kind") == "atheris":
+        from ..core import run_atheris
+
+        ctx.cls("engine:atheris")
+        return run_atheris(ctx, strategy, body(ctx), spec["n"], flush_every=500)
+    run_given(ctx, strategy, body(ctx), spec["n"])
 
 
 def health(tier, evaluations, nontrivial, classes):
